@@ -18,8 +18,26 @@ def to_case(i, beh):
                         else {str(t): bool(v) for t, v in st["swept"].items()},
                         res=[dict(kind=str(r["kind"]), exists=bool(r["exists"]), tracker=int(r["tracker"])) for r in st["res"]]))
     owners = [str(r["owner"]) for r in beh[-1][1]["res"]]
+    # does the specification expect a tracker to have swept a semaphore (a "leaked semlock" report is then legitimate)?
+    # a semaphore that disappears in its own `collect` step, or when its owner ends normally, was properly released
+    sweep_sem = False
+    prev = beh[0][1]
+    for act, st in beh[1:]:
+        l = [str(x) for x in st["last"]]
+        for i, r in enumerate(st["res"]):
+            was = prev["res"][i]["exists"] if i < len(prev["res"]) else True
+            if str(r["kind"]) == "sem" and was and not r["exists"]:
+                proper = (l[0] == "collect" and int(st["last"][1]) == i + 1) or (l[0] == "die" and l[2] == "exit" and l[1] == str(r["owner"]))
+                if not proper:
+                    sweep_sem = True
+        # a process that is killed while it owns a semaphore leaves it to the tracker even if the sweep comes later
+        if l[0] == "die" and l[2] == "kill" and any(str(r["kind"]) == "sem" and r["exists"] and str(r["owner"]) == l[1] for r in st["res"]):
+            sweep_sem = True
+        if l[0] == "killtracker":
+            sweep_sem = True        # (resources known to a killed tracker: re-registration / later reports are not predicted)
+        prev = st
     conf = dict(method=str(first["conf"]["method"]), imp=bool(first["conf"]["imp"]), strict=bool(first["conf"]["strict"]))
-    return dict(i=i, parent=parent, steps=steps, exp=exp, owners=owners, conf=conf)
+    return dict(i=i, parent=parent, steps=steps, exp=exp, owners=owners, conf=conf, sweep_sem=sweep_sem)
 
 
 def run(ctx, prop, want_ops, num_quick, num_thorough):
@@ -105,7 +123,7 @@ def run(ctx, prop, want_ops, num_quick, num_thorough):
             raise runner.Machinery("tree_controller: %s on %s | %s" % (m["why"], m["steps"], m.get("log", "")[-300:]))
     for c in cases:
         ctx.case(key=json.dumps([c["steps"], c["conf"]]), nontrivial=any(s[0] in ("killtracker", "die", "signal") for s in c["steps"]))
-    mine = [m for m in bad if ("semaphore" in m["why"]) == (prop == "C13")]
+    mine = [m for m in bad if (("semaphore" in m["why"]) or ("reported" in m["why"])) == (prop == "C13")]
     ctx.traces_validated += len(cases) - len(mine)
     ctx.extra["behaviours_replayed_on_real_trees"] = len(cases)
     ctx.extra["mismatches_other_property"] = len(bad) - len(mine)
